@@ -207,6 +207,8 @@ func (a *Allocator) Allocate(req *Request) (NodeMask, map[string]NodeMask, error
 		return 0, nil, err
 	}
 
+	a.invalidateOffers()
+
 	return req.zone, a.commitJournal(req), nil
 }
 
@@ -362,6 +364,7 @@ func (a *Allocator) realloc(req *Request, nodes NodeMask, types TypeMask) (zone 
 
 	req.zone |= nodes | newNodes
 	req.types |= newTypes
+	a.invalidateOffers()
 
 	return req.zone, a.commitJournal(req), nil
 }
